@@ -32,7 +32,7 @@ def cell_tree_t(c):
 ALIAS = {
     'seq_no': ['seq_no', 'seqno'], 'rest': [''], 'a': [''], 'b': [''], 'state_init': ['state_init', ''],
     'storage_ph': ['storage_ph', 'storage'], 'credit_ph': ['credit_ph', 'credit'], 'compute_ph': ['compute_ph', 'compute'],
-    'cc': [''], 'r1': [''], 'prices': ['prices', ''], 'shard_fees_extra': [''], 'external_chain_address': ['external_chain_address', 'external_chain_address_hex'], 'prev': ['prev', ''], 'master': ['master', ''], 'blk_ref': ['blk_ref', ''], 'vert_seq_no': ['vert_seq_no', 'vert_seqno'],
+    'cc': [''], 'r1': [''], 'prices': ['prices', ''], 'shard_fees_extra': [''], 'external_chain_address': ['external_chain_address', 'external_chain_address_hex'], 'prev': ['prev', ''], 'master': ['master', ''], 'blk_ref': ['blk_ref', ''], 'vert_seq_no': ['vert_seq_no', 'vert_seqno'], 'd': [''],
 }
 # schema fields the library reads but does not expose (nothing to compare)
 UNEXPOSED = {('CatchainConfig', 'flags')}
